@@ -1557,6 +1557,7 @@ func runC08(c *Ctx) {
 
 	r5 := c.Rule("R5", "a persistent visited set cuts a traversal only when its key determines the outcome", 3)
 	c08MemoKeys(c, r5)
+	c08PositionKeys(c, r5)
 
 	// ---- R6 what the rules read is what the schema declares: the provenance of every link (shared with C09.R3) and the
 	// guards under which conditional links are stored (C09.R2)
@@ -2243,4 +2244,120 @@ func c02PairMemoMonotone(c *Ctx, r *RuleResult) {
 	if n == 0 {
 		r.OK("pairSet.Has: an exclusive query is satisfied by any entry", "the cache only grows stronger; the recursion it gates ends")
 	}
+}
+
+// c08PositionKeys (C08.R5): a rule that remembers what it has already checked or reported by the node's position
+// (the walker visits the body of a fragment once per operation that spreads it) must key the set by something that
+// identifies the node: a key that takes Position.Line needs Position.Column of the same position too — two nodes on one
+// line (a minified request is a single line) would otherwise count as one, and the second is never checked.
+func c08PositionKeys(c *Ctx, r *RuleResult) {
+	p := c.P
+	var fns []*ssa.Function
+	for _, rel := range []string{"validator", "validator/rules"} {
+		for _, fn := range p.FuncsIn(rel) {
+			fns = append(fns, withClosures(fn)...)
+		}
+	}
+	seenFn := map[*ssa.Function]bool{}
+	for _, fn := range fns {
+		if seenFn[fn] {
+			continue
+		}
+		seenFn[fn] = true
+		allInstrs(fn, func(in ssa.Instruction) {
+			st, ok := in.(*ssa.Store)
+			if !ok {
+				return
+			}
+			dst, ok := st.Addr.(*ssa.FieldAddr)
+			if !ok {
+				return
+			}
+			keyAlloc, ok := dst.X.(*ssa.Alloc)
+			if !ok {
+				return
+			}
+			ld, ok := stripChange(st.Val).(*ssa.UnOp)
+			if !ok || ld.Op != token.MUL {
+				return
+			}
+			src, ok := ld.X.(*ssa.FieldAddr)
+			if !ok {
+				return
+			}
+			n, f, base, _ := fieldOf(src)
+			if n == nil || n.Obj().Name() != "Position" || f != "Line" {
+				return
+			}
+			// is the struct used as a map key?
+			isKey := false
+			for _, ref := range *keyAlloc.Referrers() {
+				u, ok := ref.(*ssa.UnOp)
+				if !ok || u.Op != token.MUL {
+					continue
+				}
+				for _, r2 := range *u.Referrers() {
+					switch x := r2.(type) {
+					case *ssa.Lookup:
+						if x.Index == ssa.Value(u) {
+							isKey = true
+						}
+					case *ssa.MapUpdate:
+						if x.Key == ssa.Value(u) {
+							isKey = true
+						}
+					}
+				}
+			}
+			if !isKey {
+				return
+			}
+			// a sibling field takes Column of the same position
+			hasColumn := false
+			for _, ref := range *keyAlloc.Referrers() {
+				fa, ok := ref.(*ssa.FieldAddr)
+				if !ok {
+					continue
+				}
+				for _, r2 := range *fa.Referrers() {
+					st2, ok := r2.(*ssa.Store)
+					if !ok || st2.Addr != ssa.Value(fa) {
+						continue
+					}
+					if l2, ok := stripChange(st2.Val).(*ssa.UnOp); ok && l2.Op == token.MUL {
+						if s2, ok := l2.X.(*ssa.FieldAddr); ok {
+							n2, f2, b2, _ := fieldOf(s2)
+							if n2 != nil && n2.Obj().Name() == "Position" && f2 == "Column" && sameAccess(b2, base) {
+								hasColumn = true
+							}
+						}
+					}
+				}
+			}
+			site := fmt.Sprintf("%s: map key built from Position.Line at %s", p.FuncName(fn), p.Pos(st.Pos()))
+			if hasColumn {
+				r.OK(site, "takes Position.Column of the same position as well: the key identifies the node")
+			} else {
+				r.Fail(st.Pos(), p.FuncName(fn), "map key takes Position.Line without Position.Column", "a set that decides whether a node has been handled already is keyed by the node's line but not its column: two nodes on one line (any minified request) share a key, and the second one is skipped without having been checked")
+			}
+		})
+	}
+}
+
+// sameAccess: the two values are the same SSA value or loads of the same field of the same base.
+func sameAccess(a, b ssa.Value) bool {
+	a, b = stripChange(a), stripChange(b)
+	if a == b {
+		return true
+	}
+	ua, ok1 := a.(*ssa.UnOp)
+	ub, ok2 := b.(*ssa.UnOp)
+	if ok1 && ok2 && ua.Op == token.MUL && ub.Op == token.MUL {
+		fa, ok1 := ua.X.(*ssa.FieldAddr)
+		fb, ok2 := ub.X.(*ssa.FieldAddr)
+		if ok1 && ok2 && fa.Field == fb.Field {
+			return sameAccess(fa.X, fb.X)
+		}
+	}
+	return false
 }
